@@ -24,6 +24,8 @@ CP = "hta.analyzers.critical_path_analysis"
 
 
 def run(db, chk) -> None:
+    from ..specs.endcoherence import check_time_dtype
+    check_time_dtype(db, chk, "C08.R8-time-dtype")          # node times and edge weights are differences of ts / ts + dur of the loaded frame
     from ..specs.discipline import check_stateless
     check_stateless(db, chk, "C08.R-stateless", ['hta.analyzers.critical_path_analysis'])      # the result is a function of the arguments: no state kept between calls, caller's Trace untouched
     chk.floor("C08.R-stateless", 4)
